@@ -47,11 +47,43 @@ Theorem C08_later_call_starts_from_same_visible_state :
 Proof. intros p Ha o k v0 Hf p2 o2 k2. rewrite (atomicb_sound p Ha o k v0 Hf). reflexivity. Qed.
 Print Assumptions C08_later_call_starts_from_same_visible_state.
 
+Definition zero : vstate := fun _ => 0%Z.
+
+(* Histories.  A history is any list of calls (program, oracle, fault), each started from the
+   visible state its predecessor left; `prune` removes exactly the calls that fail.  If the
+   programs are atomic, the whole history ends in the visible state of the history from which
+   the failed calls are absent - failed and successful calls interleaved in any order, any
+   number of them - and no call of that pruned history fails.  (Visible state only, as above:
+   results of later calls are compared by the correspondence run.) *)
+Theorem C08_history_equals_history_without_failed_calls :
+  forall (cs : list call) (v0 : vstate),
+    (forall c, In c cs -> atomicb (call_prog c) = true) ->
+    hist (vis_of v0) cs = hist (vis_of v0) (prune (vis_of v0) cs).
+Proof. exact hist_prune. Qed.
+Print Assumptions C08_history_equals_history_without_failed_calls.
+
+Theorem C08_pruned_history_has_no_failed_call :
+  forall (cs : list call) (v0 : vstate),
+    forallb (fun b => negb b)
+      (snd (fold_left (fun acc c => (lstep (fst acc) c, snd acc ++ [failedb (fst acc) c]))
+                      (prune (vis_of v0) cs) (vis_of v0, []))) = true.
+Proof. exact prune_no_failure. Qed.
+Print Assumptions C08_pruned_history_has_no_failed_call.
+
+(* non-vacuity: a history of the repaired shapes in which the 1st and 3rd call fail and the 2nd
+   succeeds; pruning keeps exactly the 2nd *)
+Example C08_history_nonvacuous :
+  let cs := [(compare_two_fixed, [], Some (2, 0)); (find_matches_fixed, [(0, true)], None);
+             (em_fixed, [(0, false); (2, true); (1, false)], Some (4, 0))] in
+  forallb (fun c => atomicb (call_prog c)) cs = true /\
+  map (fun c => call_prog c) (prune (vis_of zero) cs) = [find_matches_fixed] /\
+  hist (vis_of zero) cs = hist (vis_of zero) (prune (vis_of zero) cs).
+Proof. vm_compute. repeat split; reflexivity. Qed.
+
 (* ---- the code as pinned (before the repairs 6d14b1b4, fe1fba29, 82a01923) violated the statement:
    concrete failing runs of the traces the translator extracts from that tree.  The witnesses were
    replayed on the real code by the fault-injection harness (fault points 6.. of the EM call,
    7..13 of find_matches_to_new_records, 1..8 of compare_two_records). *)
-Definition zero : vstate := fun _ => 0%Z.
 
 Theorem C08_em_refuted :
   exists o k v0, failed (run_op em_pinned o k v0) <> None /\ visible (run_op em_pinned o k v0) <> vis_of v0.
